@@ -13,6 +13,11 @@ Definition has_onepc pre T := exists r p ks a m f secs, In (EPwSend r T p ks a t
 Definition has_gone pre T p := exists r C ks, In (ECmReply r T C ks CmGone) pre /\ In p ks.
 Definition has_1pc pre T o := exists r ks m, In (EPwReply r T ks (PwOk m o)) pre.
 
+Definition fb_reason pre T :=
+  (exists r p ks o m f secs, In (EPwSend r T p ks false o m f secs) pre) \/
+  (exists r ks o, In (EPwReply r T ks (PwOk 0 o)) pre) \/ has_onepc pre T.
+Definition has_minc pre T m := exists r ks o, In (EPwReply r T ks (PwOk m o)) pre.
+
 Lemma has_pwok_mono pre l T k : has_pwok pre T k -> has_pwok (pre ++ l) T k.
 Proof. intros (r & ks & m & o & H1 & H2). exists r, ks, m, o. split; [apply in_or_app; auto | auto]. Qed.
 Lemma has_cmok_mono pre l T C p : has_cmok pre T C p -> has_cmok (pre ++ l) T C p.
@@ -25,6 +30,16 @@ Lemma has_gone_mono pre l T p : has_gone pre T p -> has_gone (pre ++ l) T p.
 Proof. intros (r & C & ks & H1 & H2). exists r, C, ks. split; [apply in_or_app; auto | auto]. Qed.
 Lemma has_1pc_mono pre l T o : has_1pc pre T o -> has_1pc (pre ++ l) T o.
 Proof. intros (r & ks & m & H). exists r, ks, m. apply in_or_app; auto. Qed.
+Lemma has_minc_mono pre l T m : has_minc pre T m -> has_minc (pre ++ l) T m.
+Proof. intros (r & ks & o & H). exists r, ks, o. apply in_or_app; auto. Qed.
+Lemma fb_reason_mono pre l T : fb_reason pre T -> fb_reason (pre ++ l) T.
+Proof.
+  intros [(r & p & ks & o & m & f & secs & H) | [(r & ks & o & H) | H]].
+  - left. exists r, p, ks, o, m, f, secs. apply in_or_app; auto.
+  - right. left. exists r, ks, o. apply in_or_app; auto.
+  - right. right. apply has_onepc_mono. exact H.
+Qed.
+#[export] Hint Resolve has_minc_mono fb_reason_mono : core.
 #[export] Hint Resolve has_pwok_mono has_cmok_mono has_async_mono has_onepc_mono has_gone_mono has_1pc_mono : core.
 
 Record HT (T : N) (pre : list event) (c : crec) : Prop := {
@@ -50,7 +65,14 @@ Record HT (T : N) (pre : list event) (c : crec) : Prop := {
   t_call : forall pre1 pre2 cz, pre = pre1 ++ ECommitCall T cz :: pre2 ->
              (forall cz', ~ In (ECommitCall T cz') pre2) ->
              cn c FCalled <> 0 /\ (cn c FCausal <> 0 <-> cz = true) /\
-             forall t, In (ETso t) pre1 -> t <= cn c FWm }.
+             forall t, In (ETso t) pre1 -> t <= cn c FWm;
+  t_trieda2 : forall r p ks o m f secs, In (EPwSend r T p ks true o m f secs) pre -> cn c FTriedA <> 0;
+  t_tried12 : forall r p ks a m f secs, In (EPwSend r T p ks a true m f secs) pre -> cn c FTried1 <> 0;
+  t_ksent : forall k, kcnt c KSent k = N.of_nat (sum_of (pw_send_occ T k) pre);
+  t_kneg : forall k, kcnt c KNeg k = N.of_nat (sum_of (pw_negreply_occ T k) pre);
+  t_fb : cn c FFb <> 0 -> fb_reason pre T;
+  t_minc2 : cn c FMinc <> 0 -> has_minc pre T (cn c FMinc);
+  t_primlk : forall p ms, In (EMutations T p ms) pre -> In p (lock_keys ms) }.
 
 Lemma fb_true c f : fb c f = true <-> cn c f <> 0.
 Proof. unfold fb. rewrite negb_true_iff, N.eqb_neq. tauto. Qed.
@@ -59,7 +81,7 @@ Proof. unfold fb. rewrite negb_false_iff, N.eqb_eq. tauto. Qed.
 
 Lemma HT_init T : HT T [] c0.
 Proof.
-  constructor; cbn [c0 cn c_lm c_pwok In count_if N.eqb]; intros; try contradiction; try reflexivity;
+  constructor; unfold kcnt; cbn [c0 cn c_lm c_pwok c_kl kcnt_l sum_of In count_if N.eqb]; intros; try contradiction; try reflexivity;
     try (exfalso; auto; fail); auto.
   destruct pre1; discriminate.
 Qed.
@@ -73,13 +95,17 @@ Definition txn_ev (e : event) : option N :=
   end.
 
 Ltac notT e :=
-  intros Hne; destruct e; cbn [is_cm_send is_pc_send is_pc_reply is_pc_neg is_pw_send is_pw_reply];
+  intros Hne; destruct e; cbn [is_cm_send is_pc_send is_pc_reply is_pc_neg is_pw_send is_pw_reply pw_send_occ pw_negreply_occ];
   try reflexivity;
   match goal with |- context [?s =? ?T] =>
     let E := fresh "E" in
     destruct (s =? T) eqn:E;
     [apply N.eqb_eq in E; subst; exfalso; apply Hne; reflexivity | reflexivity]
   end.
+Lemma notT_send_occ T k e : txn_ev e <> Some T -> pw_send_occ T k e = 0%nat.
+Proof. notT e. Qed.
+Lemma notT_negreply_occ T k e : txn_ev e <> Some T -> pw_negreply_occ T k e = 0%nat.
+Proof. notT e. Qed.
 Lemma notT_cm_send T e : txn_ev e <> Some T -> is_cm_send T e = false.
 Proof. notT e. Qed.
 Lemma notT_pc_send T p e : txn_ev e <> Some T -> is_pc_send T p e = false.
@@ -98,7 +124,7 @@ Ltac snoc_other H Hne :=
 
 Lemma HT_frame T pre c e : txn_ev e <> Some T -> HT T pre c -> HT T (pre ++ [e]) c.
 Proof.
-  intros Hne [C1 C2 C3 C4 C5 C6 C7 C8 C9 C10 C11 C12 C13 C14 C15 C16 C17 C18].
+  intros Hne [C1 C2 C3 C4 C5 C6 C7 C8 C9 C10 C11 C12 C13 C14 C15 C16 C17 C18 C19 C20 C21 C22 C23 C24 C25].
   constructor; auto.
   - intros p ms H. snoc_other H Hne. eauto.
   - intros Hh H0 r C ks H. snoc_other H Hne. eauto.
@@ -116,30 +142,44 @@ Proof.
     destruct Hd as [(-> & <- & ->) | (q & -> & ->)].
     + exfalso. apply Hne. reflexivity.
     + apply (C18 pre1 q cz eq_refl). intros cz' Hi. apply (Hno cz'). apply in_or_app. auto.
+  - intros r p ks o m f secs H. snoc_other H Hne. eauto.
+  - intros r p ks a m f secs H. snoc_other H Hne. eauto.
+  - intros k. rewrite sum_of_snoc, notT_send_occ, Nat.add_0_r; auto.
+  - intros k. rewrite sum_of_snoc, notT_negreply_occ, Nat.add_0_r; auto.
+  - intros p ms H. snoc_other H Hne. eauto.
 Qed.
 
 (* ---- changes of fields the invariant does not read ---- *)
 Definition tracked (f : fld) : bool :=
   match f with
-  | FCalled | FCausal | FWm | FHasm | FPrim | FTriedA | FTried1 | FPwSent | FPwRep | FMinc | F1pcTs
+  | FCalled | FCausal | FWm | FHasm | FPrim | FTriedA | FTried1 | FFb | FPwSent | FPwRep | FMinc | F1pcTs
   | FPcSent | FPcNeg | FPcRep | FPcOk | FPcRb => true
   | _ => false
   end.
 Definition tr_same (c c' : crec) : Prop :=
   (forall f, tracked f = true -> cn c' f = cn c f) /\ c_lm c' = c_lm c /\ c_pwok c' = c_pwok c /\
+  (forall k, kcnt c' KSent k = kcnt c KSent k) /\ (forall k, kcnt c' KNeg k = kcnt c KNeg k) /\
   (cn c FDead <> 0 -> cn c' FDead <> 0).
+Lemma dlv_tr_same c c' : dlv_same c c' -> tr_same c c'.
+Proof.
+  intros (A1 & A2 & A3 & A4 & A5). split; [| repeat (split; [assumption|])].
+  - intros f Hf. apply A1. intros ->. discriminate.
+  - rewrite A1; [auto | discriminate].
+Qed.
 
 Lemma HT_untracked T pre c c' : tr_same c c' -> HT T pre c -> HT T pre c'.
 Proof.
-  intros (E & Elm & Epw & Ed) [C1 C2 C3 C4 C5 C6 C7 C8 C9 C10 C11 C12 C13 C14 C15 C16 C17 C18].
+  intros (E & Elm & Epw & Eks & Ekn & Ed) [C1 C2 C3 C4 C5 C6 C7 C8 C9 C10 C11 C12 C13 C14 C15 C16 C17 C18 C19 C20 C21 C22 C23 C24 C25].
   constructor; rewrite ?Elm, ?Epw;
     repeat match goal with |- context [cn c' ?f] =>
              lazymatch f with FDead => fail | _ => rewrite (E f eq_refl) end end; auto.
-  intros r ks H. apply Ed. eauto.
+  - intros r ks H. apply Ed. eauto.
+  - intros k. rewrite Eks. auto.
+  - intros k. rewrite Ekn. auto.
 Qed.
 
 Ltac tr_same_tac :=
   split; [let fl := fresh "fl" in let Hf := fresh "Hf" in
           intros fl Hf; destruct fl; try discriminate Hf; reflexivity |];
-  split; [reflexivity|]; split; [reflexivity|];
+  split; [reflexivity|]; split; [reflexivity|]; split; [reflexivity|]; split; [reflexivity|];
   first [intros _; discriminate | let Hd := fresh "Hd" in intros Hd; exact Hd].
